@@ -85,3 +85,23 @@ Definition slice_tie_ok (op : N) (img : bytes) (addr : N) (s : selection)
         | _ => false
         end
     end.
+
+(* ---- Attribute.ReadValue of a variable-length string attribute (in process: the attribute keeps the reader) ---- *)
+Fixpoint strip0r (b : bytes) : bytes :=      (* rev b without its leading zeros *)
+  match b with 0 :: r => strip0r r | _ => b end.
+Definition strip0 (b : bytes) : bytes := rev (strip0r (rev b)).
+
+(* case = (cut, failing call, kind code, Go class, Go call count); vint = the Go value on the intact file *)
+Definition attrval_tie_ok (img : bytes) (addr : N) (idx n : N) (vint : val) : (Z * Z * N * N * N) -> bool :=
+  let sbo := run0 img p_superblock in
+  fun case =>
+    match case with
+    | (cut, k, kind, cls, ncalls) =>
+        match sbo with
+        | Ok sb =>
+            let r := run_case img cut k kind (api_read_attribute sb TIE_FUEL addr (vlen_walk sb (N.to_nat idx) n)) in
+            (oclass (fst r) =? cls) && (N.of_nat (snd r) =? ncalls) &&
+            match fst r with Ok x => val_eqb (VL (map (fun s => VB (strip0 s)) (snd x))) vint | _ => true end
+        | _ => false
+        end
+    end.
